@@ -101,7 +101,7 @@ vproof! {
 //@ besteffort: yes
 //@ prop: C02
 //@ tier: thorough
-//@ cap: 3600
+//@ cap: 1500
 //@ funcs: Binomial::new (method switch, flip)
 //@ bounds: n in {1, 20, 21, 100, 1000, 2^40, 2^62+12345} x every f64 p in (0,1)
 //@ assumes: f64::powf, f64::sqrt, libm::exp by contract
